@@ -44,6 +44,8 @@ ASSUMPTIONS = [
     "Choice values and grid cells are integers; patterns are Builders, ints, lists and tuples",
     "randint's rejection loop is given fuel 256 in the model (each draw is accepted with probability > 1/2)",
     "SegmentationBuilder2D is not part of the Coq model (C18 models it): reproducibility of runs over such patterns is observed by the search, not proved",
+    "'regardless of the backend': the backend only enters through the solver callback; the runs use synthetic callbacks, backend independence of real solvers is C02's subject",
+    "bench/generator.py needs the cspuz_core backend (a z3 run of its first sudoku did not finish in 10 min) and is not executed; it only calls randint with a = 0, where the fixed randint is unchanged",
     "CPython set iteration order and object aliasing are outside the model; 'earlier problems are never mutated' is tested with deep copies",
     "temperature stays a positive finite float (a temperature that underflows to 0.0 raises ZeroDivisionError in Python; not modelled)",
 ]
@@ -189,6 +191,16 @@ class Callbacks:
         self.kept = []           # (object, deep copy at the time of the call)
         self.last = None         # (problem object, sat, uniqueness verdict or None)
         self.watch = watch
+        self.events = []         # ("solve", snapshot) / ("update",): order of solver calls and accepted moves
+
+    # file-like: generate_problem(verbose=True) prints "score: a -> b ..." to sys.stderr exactly when it
+    # replaces the current problem by the neighbour it just evaluated
+    def write(self, text):
+        if text.startswith("score:"):
+            self.events.append(("update",))
+
+    def flush(self):
+        pass
 
     def solver(self, problem):
         c = self.cfg
@@ -197,7 +209,9 @@ class Callbacks:
         sat = c["ksat"] == 0 or h % c["ksat"] != 0
         self.trace.append((1 if sat else 0, show_prob(problem)))
         if self.watch:
-            self.kept.append((problem, copy.deepcopy(problem)))
+            snap = copy.deepcopy(problem)
+            self.kept.append((problem, snap))
+            self.events.append(("solve", snap))
         self.last = [problem, sat, None]
         return (True, h) if sat else (False, None)
 
@@ -232,6 +246,8 @@ def python_run(cfg, hook=None, watch=True):
     seed_prng(cfg["seed"])
     if hook:
         hook(True)
+    old_stderr = sys.stderr
+    sys.stderr = cb
     try:
         try:
           with time_limit(60):
@@ -240,7 +256,7 @@ def python_run(cfg, hook=None, watch=True):
                 clue_penalty=cb.clue_penalty if cfg["pen"] else None, uniqueness=cb.uniqueness,
                 pretest=cb.pretest if cfg["kpre"] else None, initial_temperature=cfg["t0"],
                 temperature_decay=cfg["decay"], max_steps=cfg["max_steps"],
-                solve_initial_problem=cfg["solve_initial"])
+                solve_initial_problem=cfg["solve_initial"], verbose=True)
           out = ("ok", ("None" if r is None else show_prob(r), prng_state(), cb.calls, tuple(cb.trace)))
           cb.result = r
         except BaseException as ex:  # noqa
@@ -249,6 +265,7 @@ def python_run(cfg, hook=None, watch=True):
             out = ("err", err_name(ex))
             cb.result = None
     finally:
+        sys.stderr = old_stderr
         if hook:
             hook(False)
     return out, cb, pattern
@@ -1044,6 +1061,40 @@ def search_runs(ctx):
                 ctx.violation("returned-problem-not-accepted",
                               "generate_problem returned a problem that was not the one the solver reported satisfiable and the uniqueness test accepted",
                               {"cfg": cfg, "returned": show_prob(r), "last_solver_call": None if last is None else [show_prob(last[0]), last[1], last[2]]})
+        # every problem handed to the solver is a one-update neighbour of the problem that is current at
+        # that moment (initial problem, then whatever the last accepted move installed)
+        if has_model(cfg["pattern"]):
+            from cspuz.generator import build_neighbor_generator
+            try:
+                current = build_neighbor_generator(build_pattern(cfg["pattern"]))[0]
+            except Exception:
+                current = None
+            last = None
+            first = cfg["solve_initial"]
+            for ev in cb.events:
+                if current is None:
+                    break
+                if ev[0] == "update":
+                    if last is not None:
+                        current = last
+                    continue
+                last = ev[1]
+                if first:
+                    first = False
+                    if last != current:
+                        ctx.violation("initial-problem-not-solved-first", "solve_initial_problem=True did not hand the initial problem to the solver first",
+                                      {"cfg": cfg, "initial": current, "solved": last})
+                    continue
+                try:
+                    n, bad = check_local(cfg["pattern"], current, last)
+                except Exception as ex:
+                    n, bad = 1, ["malformed neighbour %s" % type(ex).__name__]
+                if n > 1:
+                    bad = bad + ["%d builder positions differ from the current problem" % n]
+                if bad:
+                    ctx.violation("tried-neighbour-not-local", "a problem handed to the solver is not a one-update neighbour of the current problem",
+                                  {"cfg": cfg, "current": current, "tried": last, "complaints": bad})
+                    break
         for i, (obj, snap) in enumerate(cb.kept):
             if obj != snap:
                 ctx.violation("earlier-problem-mutated", "a problem handed to the solver earlier was modified later in the run",
@@ -1088,6 +1139,8 @@ def search_segmentation(ctx):
         except Exception as ex:
             ctx.violation("segmentation-run-raises", "generate_problem over a SegmentationBuilder2D pattern raised / did not terminate",
                           {"pattern": spec, "seed": seed, "exception": "%s: %s" % (type(ex).__name__, ex)})
+            if isinstance(ex, Hang):
+                break
             continue
         ctx.prop_case("segmentation-same-seed", (json.dumps(spec), seed))
         if a != b:
